@@ -50,7 +50,7 @@ fn spec(state: &Option<Vec<u8>>, op: &Op) -> (Option<Vec<u8>>, String) {
             (Some(v), format!("i:{}", n))
         }
         "STRLEN" => (state.clone(), format!("i:{}", state.as_ref().map(|v| v.len()).unwrap_or(0))),
-        "INCR" | "EINCR" | "ESINCR" => match state {
+        "INCR" | "EINCR" | "ESINCR" | "XINCR" => match state {
             None => (Some(b"1".to_vec()), "i:1".into()),
             Some(v) => match std::str::from_utf8(v).ok().and_then(|s| s.parse::<i64>().ok()) {
                 None => (state.clone(), "e:2".into()),
@@ -144,10 +144,12 @@ fn val(rng: &mut Rng) -> Vec<u8> {
 fn gen_op(rng: &mut Rng, class: &str, k: &[u8]) -> Op {
     if class == "counter" {
         // one counter hammered through every way of incrementing / reading it
-        return match rng.below(9) {
+        return match rng.below(12) {
             0 | 1 => Op::k("INCR", k),
             2 | 3 => Op::k("EINCR", k),
             4 | 5 => Op::k("ESINCR", k),
+            // a read-modify-write script of TWO redis.call's (atomic iff the script is one step)
+            9..=11 => Op::k("XINCR", k),
             6 => Op::k(*rng.pick(&["GET", "EGET", "ESGET"]), k),
             7 => Op::k("FGET", k),
             _ => Op::new("BGET", vec![k.to_vec()], vec![]),
@@ -328,6 +330,7 @@ fn corpus_scripts() -> Vec<Case> {
             prog.push((Op::k("FGET", &k), 0));
             prog.push((Op::k("ESINCR", &k), 0));
             prog.push((Op::k("EINCR", &k), 0));
+            prog.push((Op::k("XINCR", &k), 0));
             prog.push((Op::k("INCR", &k), 0));
             prog.push((Op::new("BGET", vec![k.clone()], vec![]), 0));
         }
@@ -652,6 +655,89 @@ async fn cancel_case(out: &mut Out, rng: &mut Rng, fixed: bool, corpus: bool) {
 
 
 
+// ───────────────────────── multi-call, multi-key scripts ─────────────────────────
+/// Atomicity of a script that makes SEVERAL redis.call's on TWO keys of one shard (the model:
+/// `Redis.Prog` / `execScript7`, theorem `C02.script_refines` — the whole script is one step of the
+/// shard that owns KEYS[1]).  `a` starts at 1000, `b` at 0.  Writers run a transfer script (read
+/// both, write both: four calls), readers run a sum script (two calls) and plain commands race on the
+/// same shard.  If a script is one atomic step, every sum is 1000 and the transfers are not lost.
+/// A direct oracle on the real code (multi-key operations are outside the per-key checkers).
+async fn transfer_case(out: &mut Out, rng: &mut Rng, fixed: bool, corpus: bool) {
+    use redis_sim::redis::{Command, RespValue};
+    let n = if corpus { 4usize } else { *rng.pick(&[1usize, 2, 4, 8, 16]) };
+    let st = Arc::new(new_state(n));
+    // two keys with one home (under both hashes if the tree still has two)
+    let cands: Vec<Vec<u8>> = (0..400).map(|i| format!("acct:{}", i).into_bytes()).filter(|k| !mismatched(k, n, fixed)).collect();
+    let a = cands[rng.below(20) as usize].clone();
+    let b = match cands.iter().find(|k| **k != a && h_bytes(k, n) == h_bytes(&a, n)) {
+        Some(b) => b.clone(),
+        None => return,
+    };
+    let (ka, kb) = (String::from_utf8(a.clone()).unwrap(), String::from_utf8(b.clone()).unwrap());
+    st.execute(&Command::set(ka.clone(), redis_sim::redis::SDS::new(b"1000".to_vec()))).await;
+    st.execute(&Command::set(kb.clone(), redis_sim::redis::SDS::new(b"0".to_vec()))).await;
+    const XFER: &str = "local x = tonumber(redis.call('GET', KEYS[1])) local y = tonumber(redis.call('GET', KEYS[2])) redis.call('SET', KEYS[1], tostring(x - 1)) redis.call('SET', KEYS[2], tostring(y + 1)) return x + y";
+    const SUM: &str = "return tonumber(redis.call('GET', KEYS[1])) + tonumber(redis.call('GET', KEYS[2]))";
+    let writers = if corpus { 4 } else { rng.range(2, 5) as usize };
+    let readers = if corpus { 3 } else { rng.range(1, 4) as usize };
+    let rounds = if corpus { 25 } else { rng.range(10, 30) as usize };
+    let mut handles = Vec::new();
+    for w in 0..writers + readers {
+        let (st, ka, kb) = (st.clone(), ka.clone(), kb.clone());
+        let by_sha = w % 2 == 1;
+        let is_writer = w < writers;
+        handles.push(tokio::spawn(async move {
+            let mut sums = Vec::new();
+            for r in 0..rounds {
+                let script = if is_writer { XFER } else { SUM };
+                let reply = crate::c03::run_script(&st, script, by_sha, vec![ka.clone(), kb.clone()], vec![]).await;
+                sums.push(match reply {
+                    RespValue::Integer(i) => i,
+                    other => {
+                        let _ = other;
+                        i64::MIN
+                    }
+                });
+                if r % 3 == 0 {
+                    tokio::task::yield_now().await;
+                }
+                // a plain command on the same shard between the scripts (must not split them)
+                if r % 5 == 4 {
+                    let _ = st.execute(&Command::StrLen(ka.clone())).await;
+                }
+            }
+            sums
+        }));
+    }
+    let mut all: Vec<i64> = Vec::new();
+    for h in handles {
+        all.extend(h.await.expect("script client"));
+    }
+    let num = |r: RespValue| match r {
+        RespValue::BulkString(Some(v)) => String::from_utf8_lossy(&v).parse::<i64>().unwrap_or(i64::MIN),
+        _ => i64::MIN,
+    };
+    let fa = num(st.execute(&Command::Get(ka.clone())).await);
+    let fb = num(st.execute(&Command::Get(kb.clone())).await);
+    let transfers = (writers * rounds) as i64;
+    out.count("class:script-transfer");
+    out.count(&format!("shards:{}", n));
+    out.count_n("script-transfer:scripts-run", ((writers + readers) * rounds) as u64);
+    let bad_sum = all.iter().find(|x| **x != 1000).cloned();
+    let ok = bad_sum.is_none() && fa == 1000 - transfers && fb == transfers;
+    if !ok {
+        out.violation(
+            "C02:script-not-atomic:transfer",
+            &format!(
+                "{} writers x {} transfer scripts (GET a, GET b, SET a-1, SET b+1) and {} readers (GET a + GET b) on {} shards: a script observed the sum {:?} / the run ended with a = {}, b = {} (atomic scripts: every sum 1000, a = {}, b = {})",
+                writers, rounds, readers, n, bad_sum, fa, fb, 1000 - transfers, transfers
+            ),
+            json!({"shards": n, "keys": [ka, kb], "writers": writers, "readers": readers, "rounds": rounds, "sums_observed_not_1000": all.iter().filter(|x| **x != 1000).take(10).collect::<Vec<_>>(), "final_a": fa, "final_b": fb}),
+        );
+    }
+    out.case(&format!("script-transfer|{}|{}|{}|{}|{:?}", n, writers, readers, rounds, all.len()), writers + readers >= 2);
+}
+
 // ───────────────────────── timed histories ─────────────────────────
 // Keys get PX / EX deadlines; the simulated clock is advanced by hand BETWEEN phases (all clients
 // idle), so every operation of a phase is invoked at a known virtual time `now`.  The sequential
@@ -957,6 +1043,8 @@ pub fn run(a: &Args) {
         for c in timed_corpus() {
             run_timed_case(&mut out, c).await;
         }
+        // multi-call scripts on two keys of one shard: the whole script is one atomic step
+        transfer_case(&mut out, &mut Rng::new(0x5C21), fixed, true).await;
         // cancellations: the fixed case first, then a few random ones
         cancel_case(&mut out, &mut Rng::new(0xC02), fixed, true).await;
         for i in 0..a.n {
@@ -965,6 +1053,9 @@ pub fn run(a: &Args) {
             run_case(&mut out, c, fixed).await;
             if i % 2000 == 999 {
                 cancel_case(&mut out, &mut r, fixed, false).await;
+            }
+            if i % 400 == 7 {
+                transfer_case(&mut out, &mut r, fixed, false).await;
             }
             if i % 8 == 3 {
                 let c = timed_random(&mut r);
@@ -980,7 +1071,7 @@ pub fn run(a: &Args) {
  "5 capacity thresholds": "CLOSED: more pooled acquisitions than the pool holds, during and after a stall; pool of capacity 1",
  "6 fault kinds": "CLOSED: request futures dropped while queued (the only await point of the pooled / oneshot paths is the response wait; send is synchronous); OPEN: shard actor panic / channel closure ('ERR shard unavailable') not injected",
  "7 history shapes": "CLOSED: overlapping ops on one key, sequential corpora per path pair, batched calls, generic fan-outs racing single-key ops, abandoned (pending) operations, timed phases; OPEN: clock advancing WHILE operations are in flight (phases advance it only when all clients are idle)",
- "8 node-global state": "CLOSED: script introduced by EVAL on one shard, EVALSHA elsewhere",
+ "8 node-global state": "CLOSED: script introduced by EVAL on one shard, EVALSHA elsewhere; multi-call scripts (session 3): XINCR = GET/+1/SET script judged as an increment in the counter histories, two-key transfer/sum scripts racing plain commands (oracle C02:script-not-atomic:transfer); model: Redis.Prog / linearizable_m7_single_store",
  "9 observations": "CLOSED: every reply (verified WGL + Rust checker), direct reply-matches-request oracle in cancellation histories; fan-outs: every ITEM of MGET/MSET is a single-key op inside the call's interval, every key of multi-key DEL / FLUSHALL is a delete without observable reply (pending op); OPEN: DBSIZE / KEYS / SCAN / RANDOMKEY replies under concurrency are NOT judged (no atomic-snapshot claim is made for fan-outs: C02 is per key)",
  "10 finding absorption": "no listed finding for C02",
  "11 harness fragility": "CLOSED: verified checker made just-in-time (no exponential blow-up on non-linearizable histories); OPEN: schedules are sampled"
